@@ -112,20 +112,36 @@ def environment(out):
         for n in dir(mod):
             v = getattr(mod, n)
             if n.isupper() and isinstance(v, int) and not isinstance(v, bool): consts[n] = v
-    code = ("import json, aioswitcher.api as a, aioswitcher.bridge as b\n"
-            "print(json.dumps({'tcp': {k.name: v for k, v in a.SWITCHER_DEVICE_TO_TCP_PORT.items()}, 'udp': {k.name: v for k, v in b.SWITCHER_DEVICE_TO_UDP_PORT.items()}}))")
-    want = {"tcp": {c.name: api.SWITCHER_DEVICE_TO_TCP_PORT.get(c) for c in DeviceCategory}, "udp": {c.name: bridge.SWITCHER_DEVICE_TO_UDP_PORT.get(c) for c in DeviceCategory}}
-    envs = [("every constant named in the environment with its own value", {n: str(v) for n, v in consts.items()}),
-            ("only the type-1 constants named", {n: str(v) for n, v in consts.items() if "TYPE1" in n}),
-            ("unrelated variables", {"SWITCHER": "1", "PORT": "1", "TZ": "Asia/Kathmandu", "LANG": "tr_TR.UTF-8"})]
+    # the port tables and the class / type acceptance matrix (a class accepts exactly the types of its own category)
+    code = ("import json, aioswitcher.api as a, aioswitcher.bridge as b, aioswitcher.device as d\n"
+            "S = d.DeviceState.ON; base = ('aabbcc', '18', '1.2.3.4', 'AA:BB:CC:DD:EE:FF', 'name')\n"
+            "mk = {'SwitcherPowerPlug': lambda t: d.SwitcherPowerPlug(t, S, *base, 5, 0.0), 'SwitcherWaterHeater': lambda t: d.SwitcherWaterHeater(t, S, *base, 5, 0.0, '00:00:00', '01:00:00'),\n"
+            "      'SwitcherShutter': lambda t: d.SwitcherShutter(t, S, *base, 50, d.ShutterDirection.SHUTTER_STOP),\n"
+            "      'SwitcherThermostat': lambda t: d.SwitcherThermostat(t, S, *base, d.ThermostatMode.COOL, 21.5, 24, d.ThermostatFanLevel.LOW, d.ThermostatSwing.OFF, 'ELEC7022')}\n"
+            "def v(f, t):\n"
+            "    try: f(t); return 'accepted'\n"
+            "    except ValueError: return 'refused'\n"
+            "    except Exception as e: return 'raised ' + type(e).__name__\n"
+            "print(json.dumps({'tcp': {k.name: v_ for k, v_ in a.SWITCHER_DEVICE_TO_TCP_PORT.items()}, 'udp': {k.name: v_ for k, v_ in b.SWITCHER_DEVICE_TO_UDP_PORT.items()},\n"
+            "                  'classes': {c + '/' + t.name: v(f, t) for c, f in mk.items() for t in d.DeviceType}}))")
+    cat = {"SwitcherPowerPlug": "POWER_PLUG", "SwitcherWaterHeater": "WATER_HEATER", "SwitcherShutter": "SHUTTER", "SwitcherThermostat": "THERMOSTAT"}
+    from aioswitcher.device import DeviceType
+    want = {"tcp": {c.name: api.SWITCHER_DEVICE_TO_TCP_PORT.get(c) for c in DeviceCategory}, "udp": {c.name: bridge.SWITCHER_DEVICE_TO_UDP_PORT.get(c) for c in DeviceCategory},
+            "classes": {c + "/" + t.name: ("accepted" if t.category.name == cat[c] else "refused") for c in cat for t in DeviceType}}
+    envs = [("every constant named in the environment with its own value", {n: str(v) for n, v in consts.items()}, []),
+            ("only the type-1 constants named", {n: str(v) for n, v in consts.items() if "TYPE1" in n}, []),
+            ("unrelated variables", {"SWITCHER": "1", "PORT": "1", "TZ": "Asia/Kathmandu", "LANG": "tr_TR.UTF-8"}, []),
+            ("TZ=Asia/Jerusalem", {"TZ": "Asia/Jerusalem"}, []), ("TZ=America/Los_Angeles", {"TZ": "America/Los_Angeles"}, []), ("TZ=Asia/Kolkata", {"TZ": "Asia/Kolkata"}, []),
+            ("TZ=Australia/Lord_Howe", {"TZ": "Australia/Lord_Howe"}, []), ("an interpreter started with -O", {}, ["-O"]), ("an interpreter started with -OO", {}, ["-OO"]),
+            ("PYTHONOPTIMIZE=1", {"PYTHONOPTIMIZE": "1"}, []), ("PYTHONHASHSEED=0 and -X dev", {"PYTHONHASHSEED": "0"}, ["-X", "dev"]), ("an isolated interpreter's opposite: -E ignored variables", {"PYTHONUTF8": "0", "LC_ALL": "C"}, [])]
     io = []
-    for _, extra in envs:
+    for _, extra, flags in envs:
         env = dict(os.environ, PYTHONPATH=lib.REPO_SRC, **extra)
-        p = subprocess.run([sys.executable, "-c", code], capture_output=True, text=True, env=env, timeout=120)
+        p = subprocess.run([sys.executable] + flags + ["-c", code], capture_output=True, text=True, env=env, timeout=120)
         try: io.append(json.dumps(json.loads(p.stdout), sort_keys=True))
         except Exception: io.append("import failed: " + p.stderr.strip()[-200:])
-    lib.differential(out, "tables-in-a-fresh-interpreter-under-other-environments", [{"environment": n} for n, _ in envs], io, None,
-                     [json.dumps(want, sort_keys=True)] * len(envs), lambda c: "port tables with " + c["environment"], sample=lambda c: c)
+    lib.differential(out, "tables-in-a-fresh-interpreter-under-other-environments", [{"environment": n} for n, _, _ in envs], io, None,
+                     [json.dumps(want, sort_keys=True)] * len(envs), lambda c: "port tables and class / type matrix with " + c["environment"], sample=lambda c: c)
 
 
 def run(tier, rnd, out):
